@@ -310,7 +310,7 @@ func c06Finish(c *engine.Ctx, cov map[string]interface{}) string {
 func init() {
 	register(&engine.Check{
 		ID: "C06", Level: "model_checking",
-		Rule: "vocabulary of ~250 token spellings (every reserved and contextual word, every punctuator, identifiers with Unicode letters/ZWNJ/\\u escapes, private names, numeric literals of all radixes with separators and BigInt suffix, strings with every escape and line-continuation kind, templates incl. nested substitutions, all comment kinds, every whitespace and line-terminator kind, regular-expression literals with classes and escaped slashes): all ordered pairs × 7 separators, pairs inside 4-6 template/brace wrappers, all triples over a 60-spelling core × separators; all strings ≤k atoms over the JS alphabets; edit balls around the JS seeds. js.Lexer (RegExp() called where the generator placed a regexp literal) must return exactly the reference lexer's (type,text) list whenever the reference accepts the input; canonical spelling of every operator/punctuator/keyword token; Keywords table entry by entry",
+		Rule:        "vocabulary of ~250 token spellings (every reserved and contextual word, every punctuator, identifiers with Unicode letters/ZWNJ/\\u escapes, private names, numeric literals of all radixes with separators and BigInt suffix, strings with every escape and line-continuation kind, templates incl. nested substitutions, all comment kinds, every whitespace and line-terminator kind, regular-expression literals with classes and escaped slashes): all ordered pairs × 7 separators, pairs inside 4-6 template/brace wrappers, all triples over a 60-spelling core × separators; all strings ≤k atoms over the JS alphabets; edit balls around the JS seeds. js.Lexer (RegExp() called where the generator placed a regexp literal) must return exactly the reference lexer's (type,text) list whenever the reference accepts the input; canonical spelling of every operator/punctuator/keyword token; Keywords table entry by entry",
 		Assumptions: []string{"reference = hand-written ECMA-262 §12 lexer (longest match, brace/template stack), consecutive whitespace and consecutive line terminators are one token each as in the library", "inputs the reference places outside the lexical grammar (unterminated literals, identifier or digit directly after a number, legacy octal, stray characters, invalid UTF-8) are not compared"},
 		Setup:       c06Setup, Work: c06Work, Finish: c06Finish,
 	})
